@@ -81,6 +81,102 @@ func c05xOffsetFiles() (out [][]byte) {
 	return out
 }
 
+// c05xObjStmFiles: object streams whose members exercise the look-ahead of
+// getFromObjStm/referenceTail (reader.go): an integer member followed by what
+// may or may not complete "n g R" within the member's extent, which ends at
+// the next larger offset of the index (64 bytes at most).  Members 6, 7, 8 of
+// object stream 5; index = the given offsets, body = the given bytes.
+func c05xObjStmFiles() (out [][]byte, notes []string) {
+	type lay struct {
+		note string
+		offs [3]int
+		body string
+	}
+	sp70 := strings.Repeat(" ", 70)
+	lays := []lay{
+		{"member '2 0 R'", [3]int{0, 6, 12}, "2 0 R 7 0 R (x)"},
+		{"integer at the very end", [3]int{0, 4, 8}, "(a) (b) 7"},
+		{"'2 0 R' at the very end", [3]int{0, 4, 8}, "(a) (b) 2 0 R"},
+		{"'2 0' at the very end", [3]int{0, 4, 8}, "(a) (b) 2 0"},
+		{"'2 ' at the very end", [3]int{0, 4, 8}, "(a) (b) 2 "},
+		{"offsets out of order", [3]int{12, 6, 0}, "2 0 R 7 0 R 3 0 R"},
+		{"offsets equal", [3]int{0, 0, 0}, "2 0 R 7 0 R"},
+		{"two offsets equal, third behind", [3]int{0, 0, 4}, "2 0 R 7 0 R"},
+		{"next offset inside the integer", [3]int{0, 2, 3}, "12345 0 R 8"},
+		{"next offset right behind the integer", [3]int{0, 1, 2}, "2 0 R"},
+		{"next offset inside the generation", [3]int{0, 3, 5}, "2 10 R 9"},
+		{"next offset before R", [3]int{0, 4, 9}, "2 0 R 7 0 R"},
+		{"next offset behind R", [3]int{0, 5, 9}, "2 0 R7 0 Rx"},
+		{"70 spaces behind the integer", [3]int{0, 80, 90}, "2" + sp70 + "0 R      (x)       (y)"},
+		{"70 spaces behind the generation", [3]int{0, 80, 90}, "2 0" + sp70 + "R     (x)       (y)"},
+		{"63 spaces then 0 R", [3]int{0, 80, 90}, "2" + strings.Repeat(" ", 63) + "0 R             (x)       (y)"},
+		{"60 spaces, 0 R across the 64-byte window", [3]int{0, 80, 90}, "2" + strings.Repeat(" ", 60) + "0 R                (x)       (y)"},
+		{"seven digits of generation", [3]int{0, 14, 18}, "2 1234567 R   (a) (b)"},
+		{"six digits of generation", [3]int{0, 14, 18}, "2 123456 R    (a) (b)"},
+		{"generation 65535", [3]int{0, 14, 18}, "2 65535 R     (a) (b)"},
+		{"generation 65536", [3]int{0, 14, 18}, "2 65536 R     (a) (b)"},
+		{"'2 0 Rx'", [3]int{0, 14, 18}, "2 0 Rx        (a) (b)"},
+		{"'2 0 R/'", [3]int{0, 14, 18}, "2 0 R/N       (a) (b)"},
+		{"'2 0 R]'", [3]int{0, 14, 18}, "2 0 R]        (a) (b)"},
+		{"'2 0R'", [3]int{0, 14, 18}, "2 0R          (a) (b)"},
+		{"'2 R'", [3]int{0, 14, 18}, "2 R           (a) (b)"},
+		{"'2  0  R' with mixed white space", [3]int{0, 14, 18}, "2\t\n0\r\x00R     (a) (b)"},
+		{"negative number", [3]int{0, 14, 18}, "-1 0 R        (a) (b)"},
+		{"number 16777216", [3]int{0, 14, 18}, "16777216 0 R  (a) (b)"},
+		{"number 16777215", [3]int{0, 14, 18}, "16777215 0 R  (a) (b)"},
+		{"number beyond int64", [3]int{0, 30, 34}, "99999999999999999999 0 R      (a) (b)"},
+		{"high bytes behind the integer", [3]int{0, 14, 18}, "2\xff\x80 0 R     (a) (b)"},
+		{"R followed by a high byte", [3]int{0, 14, 18}, "2 0 R\xff       (a) (b)"},
+		{"reference to the object stream itself", [3]int{0, 14, 18}, "5 0 R         (a) (b)"},
+		{"reference to itself", [3]int{0, 14, 18}, "6 0 R         (a) (b)"},
+		{"offset beyond the data", [3]int{0, 1000, 2000}, "2 0 R"},
+		{"real number, not an integer", [3]int{0, 14, 18}, "2.0 0 R       (a) (b)"},
+		{"empty body", [3]int{0, 0, 0}, ""},
+	}
+	for _, l := range lays {
+		body := l.body
+		for _, flate := range []bool{false, true} {
+			var f bytes.Buffer
+			f.WriteString("%PDF-1.7\n%\x80\x80\x80\x80\n")
+			offs := make([]int, 10)
+			obj := func(n int, text string) {
+				offs[n] = f.Len()
+				fmt.Fprintf(&f, "%d 0 obj\n%s\nendobj\n", n, text)
+			}
+			obj(1, "<</Type/Catalog/Pages 2 0 R>>")
+			obj(2, "<</Type/Pages/Kids[3 0 R]/Count 1>>")
+			obj(3, "<</Type/Page/Parent 2 0 R/MediaBox[0 0 10 10]/Resources<<>>>>")
+			idx := fmt.Sprintf("6 %d 7 %d 8 %d ", l.offs[0], l.offs[1], l.offs[2])
+			data := []byte(idx + body)
+			dict := fmt.Sprintf("/Type/ObjStm/N 3/First %d", len(idx))
+			if flate {
+				data = c05Zlib(data)
+				dict += "/Filter/FlateDecode"
+			}
+			offs[5] = f.Len()
+			fmt.Fprintf(&f, "5 0 obj\n<<%s/Length %d>>\nstream\n", dict, len(data))
+			f.Write(data)
+			f.WriteString("\nendstream\nendobj\n")
+			xoff := f.Len()
+			offs[4] = xoff
+			var x bytes.Buffer
+			x.Write([]byte{0, 0, 0, 255})
+			for n := 1; n <= 5; n++ {
+				x.Write([]byte{1, byte(offs[n] >> 8), byte(offs[n]), 0})
+			}
+			for i := 0; i < 3; i++ {
+				x.Write([]byte{2, 0, 5, byte(i)})
+			}
+			fmt.Fprintf(&f, "4 0 obj\n<</Type/XRef/Size 9/W[1 2 1]/Root 1 0 R/Length %d>>\nstream\n", x.Len())
+			f.Write(x.Bytes())
+			fmt.Fprintf(&f, "\nendstream\nendobj\nstartxref\n%d\n%%%%EOF\n", xoff)
+			out = append(out, f.Bytes())
+			notes = append(notes, fmt.Sprintf("object stream member look-ahead: %s (flate=%v)", l.note, flate))
+		}
+	}
+	return out, notes
+}
+
 func robC05xRun(c *Ctx) {
 	r := c.R.Fork()
 	nDocs := 3
@@ -101,6 +197,10 @@ func robC05xRun(c *Ctx) {
 				c.Violate("c05", f.key, f.desc, fmt.Sprintf("seed=0 mode=%d data=%s", mode, hex.EncodeToString(data)))
 			}
 		}
+	}
+	osFiles, osNotes := c05xObjStmFiles()
+	for i, data := range osFiles {
+		eval("objstm-reference-tail", osNotes[i], data, "")
 	}
 	for _, data := range c05xOffsetFiles() {
 		eval("extreme-offset", "offset at the end of the int64 range in /XRefStm or in an xref stream entry", data, "")
